@@ -1,6 +1,7 @@
 (* C09: refutation witnesses of the recorded classes (the faithful model fails the judgement exactly
-   where the class says), non-vacuity of the theorems' hypotheses, and the no-rename corollary's
-   bridge "nothing renamed => no class applies". *)
+   where the class says), regression pins of the two classes repaired in /repo (C09-generic-ref,
+   C09-const-type), non-vacuity of the theorems' hypotheses, and the no-rename corollary's bridge
+   "nothing renamed => no class applies". *)
 From Coq Require Import List Bool String ZArith NArith.
 From TS Require Import Model.Str Model.Outcome Model.Unicode Model.Types Model.Parse Model.Reconcile
                        Model.Lang.Common Model.Lang.Decl Model.Lang.TypeScript Model.Lang.Kotlin Model.Lang.Scala Model.Lang.Go
@@ -59,11 +60,40 @@ Definition c09_witness (L : lang) (pfx : str) (acrs : list str) (pd : parsed) (o
   | _ => false
   end.
 
-Lemma c09_generic_ref_refuted :
-  c09_witness TypeScript [] [] w_prog (ts_file_decls uc_exec w_ts (c09_reconciled w_prog)) "C09-generic-ref" = true.
+(* Regression pins of the two classes repaired in core/src/reconcile.rs (former `_refuted` witnesses, same
+   programs): the program is inside the domain and in NO recorded class, the model generates the file, the
+   file spells the reference [r] (owner, position, name) and the judgement holds for the whole file. *)
+Definition c09_ref_eqb (a b : c09_ref) : bool :=
+  str_eqb (c9_in a) (c9_in b) && c09_pos_eqb (c9_pos a) (c9_pos b) && str_eqb (c9_name a) (c9_name b).
+Definition c09_pinned (L : lang) (pfx : str) (acrs : list str) (pd : parsed) (out : outcome file_decls) (r : c09_ref) : bool :=
+  dom_C09 L pfx pd && match known_C09 L pfx acrs pd with None => true | Some _ => false end &&
+  match out with
+  | Ok fd => existsb (c09_ref_eqb r) (c9_refs (c09_observe L fd)) && good_C09 L pfx pd (c09_observe L fd)
+  | _ => false
+  end.
+(* formerly C09-generic-ref: struct G<T> (GRen); struct H { g: G<S> }: `g: GRen<SRen>`, definition `interface GRen<T>` *)
+Lemma c09_generic_ref_fixed :
+  c09_pinned TypeScript [] [] w_prog (ts_file_decls uc_exec w_ts (c09_reconciled w_prog))
+             {| c9_in := lit "H"; c9_pos := C9Field; c9_name := lit "GRen" |} = true.
 Proof. vm_compute. reflexivity. Qed.
-Lemma c09_const_type_refuted :
-  c09_witness TypeScript [] [] w_prog_const (ts_file_decls uc_exec w_ts (c09_reconciled w_prog_const)) "C09-const-type" = true.
+Lemma c09_generic_ref_fixed_python :
+  c09_pinned Python [] [] w_prog (py_file_decls uc_exec {| py_type_mappings := []; py_no_version_header := true; py_version := [] |} (c09_reconciled w_prog))
+             {| c9_in := lit "H"; c9_pos := C9Field; c9_name := lit "GRen" |} = true.
+Proof. vm_compute. reflexivity. Qed.
+Lemma c09_generic_ref_fixed_swift :
+  c09_pinned Swift (lit "OP") [] w_prog
+             (sw_file_decls uc_exec {| sw_prefix := lit "OP"; sw_type_mappings := []; sw_default_decorators := []; sw_default_generic_constraints := [];
+                                       sw_codablevoid_constraints := []; sw_no_version_header := true; sw_version := [] |} (c09_reconciled w_prog))
+             {| c9_in := lit "OPH"; c9_pos := C9Field; c9_name := lit "OPGRen" |} = true.
+Proof. vm_compute. reflexivity. Qed.
+(* formerly C09-const-type: type A (ARen) = u32; const LIMIT: A = 5: `export const LIMIT: ARen`, definition `export type ARen` *)
+Lemma c09_const_type_fixed :
+  c09_pinned TypeScript [] [] w_prog_const (ts_file_decls uc_exec w_ts (c09_reconciled w_prog_const))
+             {| c9_in := lit "LIMIT"; c9_pos := C9Const; c9_name := lit "ARen" |} = true.
+Proof. vm_compute. reflexivity. Qed.
+Lemma c09_const_type_fixed_python :
+  c09_pinned Python [] [] w_prog_const (py_file_decls uc_exec {| py_type_mappings := []; py_no_version_header := true; py_version := [] |} (c09_reconciled w_prog_const))
+             {| c9_in := lit "LIMIT"; c9_pos := C9Const; c9_name := lit "ARen" |} = true.
 Proof. vm_compute. reflexivity. Qed.
 Lemma c09_kotlin_enum_parent_refuted :
   c09_witness Kotlin (lit "KP") [] w_prog (kt_file_decls uc_exec w_kt (c09_reconciled w_prog)) "C09-kotlin-enum-parent" = true.
